@@ -17,6 +17,9 @@ class Ctx:
     def log(self, ev, **kw):
         return self.sched.log(ev, **kw)
 
+    def in_call(self):
+        self.sched.point("call", None)
+
 
 def make_strategy(spec, rng):
     k = spec.get("kind", "random")
@@ -142,8 +145,18 @@ def execute(task):
     def body():
         return uberjob.run(b.plan, **kw)
 
-    out = sched.run(body)
+    import threading as _rt
+    import traceback as _tb
+
+    thread_exc = []
+    old_hook = _rt.excepthook
+    _rt.excepthook = lambda a: thread_exc.append("".join(_tb.format_exception(a.exc_type, a.exc_value, a.exc_traceback))[-1500:])
+    try:
+        out = sched.run(body)
+    finally:
+        _rt.excepthook = old_hook
     rec = {
+        "thread_exc": thread_exc,
         "outcome": out["outcome"],
         "dead": out["dead"],
         "events": sched.events,
@@ -223,6 +236,8 @@ def runabs_record(task, rec):
             ev.append({"e": "raise", "n": rec["err_call"], "a": 0, "x": rec["err_cause"]})
         elif rec.get("exc_type") == "KeyboardInterrupt" and rec.get("interrupts"):
             ev.append({"e": "kbint", "n": 0, "a": 0, "x": -1})
+        elif rec.get("exc_type") == "RuntimeError" and any(e["ev"] == "spawn_fail" for e in rec["events"]):
+            ev.append({"e": "spawnerr", "n": 0, "a": 0, "x": -1})
         else:
             ev.append({"e": "othererror", "n": 0, "a": 0, "x": -1})
     else:
